@@ -21,7 +21,8 @@ RULE = (
     "same path as a list, another explicit path, a ContractionTree (plain / sliced), one caching optimizer "
     "OBJECT (ReusableHyperOptimizer / ReusableRandomGreedyOptimizer) shared by all calls of the history} and kwargs from "
     "{strip_exponent, implementation, prefer_einsum, sort_contraction_indices, "
-    "via=(convert_in, convert_out) with converters that mark the value} "
+    "via=(convert_in, convert_out) with converters that mark the value}; one array-taking call in six "
+    "hands one operand over with extent 1 along a shared label (same cache entry, other shapes) "
     "incl. values equal under ==/hash but of different type (1/True/1.0). "
     "The labels of a history are one-character strings (default "
     "canonicalisation, or canonicalize=False) or integers incl. -1,-2,... "
